@@ -16,7 +16,7 @@ PROPERTY {pid} - {p['title']}
 Mechanism (where it is implemented):
 {mech}
 
-Already known, do NOT report these again: (1) when the same user key with the same version sits in two L0 tables or two ingest-buffer tables, the older table's value wins (plain, non-transactional writes all share one version); (2) the ART memtable orders keys differently from the skiplist for keys that are prefixes of each other; (3) streaming decoders allocate a length declared in a header before reading the bytes; (4) the WAL watchdog can remove a segment whose memtable is not flushed yet; (5) value-log GC can overwrite a concurrent plain (non-transactional) overwrite, and valueLog.rewrite fails its own post-check after re-inserting; (6) a multi-entry request can be recovered partially after a crash because every entry is its own WAL record; (7) recovery deletes a value-log segment that the manifest has not learnt about yet although WAL records point into it; (8) the WAL's own size-triggered rotation can collide with the id of the next memtable's segment when MemTableSize > 64 MiB; (9) a reverse TxnIterator returns the oldest visible version of each key; (10) keys near 64 KiB overflow the table block header (table layer only).
+Already known, do NOT report these again: (1) when the same user key with the same version sits in two L0 tables or two ingest-buffer tables, the older table's value wins (plain, non-transactional writes all share one version); (2) the ART memtable orders keys differently from the skiplist for keys that are prefixes of each other; (3) streaming decoders allocate a length declared in a header before reading the bytes; (4) the WAL watchdog can remove a segment whose memtable is not flushed yet; (5) value-log GC can overwrite a concurrent plain (non-transactional) overwrite, and valueLog.rewrite fails its own post-check after re-inserting; (6) a multi-entry request can be recovered partially after a crash because every entry is its own WAL record; (7) recovery deletes a value-log segment that the manifest has not learnt about yet although WAL records point into it; (8) the WAL's own size-triggered rotation can collide with the id of the next memtable's segment when MemTableSize > 64 MiB; (9) a reverse TxnIterator returns the oldest visible version of each key; (10) keys near 64 KiB overflow the table block header (table layer only); (11) a write or transaction whose WAL fsync fails after it was applied returns an error but stays visible; (12) manifest.Open (without a preceding manifest.Verify) refuses a manifest whose last record is torn.
 
 For EACH defect you can actually demonstrate (aim for 1-3 solid ones rather than many vague ones):
   - write a deterministic Go test file {d}/HUNT/<n>_test.go.txt (plus, in its header comment, the path it must be copied to and the `go test` command) that FAILS on the unmodified tree because the property is violated, and explain in {d}/HUNT/README.md: the faulty function and line, why it is wrong, the minimal scenario, what a correct fix would be (do not apply it), and paste the failing output. The test must fail because of the product code, not because of a wrong expectation - double-check the expectation against the property statement.
